@@ -73,6 +73,7 @@ func runC13(r *rt.Run, tier string) {
 	returned := 0
 	nextOverlapped := false
 	retriedNext := false
+	refusedAfterError := false
 	nextCalls := 0
 
 	readerTask := func(j int, e *deb.ArEntry, m *arMember) func() {
@@ -177,6 +178,12 @@ func runC13(r *rt.Run, tier string) {
 				r.Probe("Next-retried-after-transient-error")
 				e, err = ar.Next()
 				nextCalls++
+				if err != nil && err != io.EOF {
+					// an iterator may refuse to go on after an I/O error: nothing more is claimed
+					refusedAfterError = true
+					nextErr = err
+					return
+				}
 			}
 			if err != nil {
 				nextErr = err
@@ -243,6 +250,9 @@ func runC13(r *rt.Run, tier string) {
 		if !magicBad {
 			r.Violate("C13/load-error", prof, "LoadAr rejected a well-formed archive of %d members (%d bytes): %v", len(ms), len(img), loadErr)
 		}
+		return
+	}
+	if refusedAfterError {
 		return
 	}
 	firstBad := -1
